@@ -211,7 +211,9 @@ def gen_case(r, hazard=None):
             cdef(x, ty2, rand_val(r, ty2))
     conds = [gen_cond(r, types) for _ in range(r.range(4, 8))]
     src = "\n".join("rule r%d { condition: %s }" % (i, c_text(c, None)) for i, c in enumerate(conds))
-    ops.append(("gr", ["add " + hx(src.encode()), "getrules", "dump"]))
+    # one history in three continues on the rule set as saved and loaded again (type tags and values must survive)
+    loaded = hazard is None and r.chance(1, 3)
+    ops.append(("gr", ["add " + hx(src.encode()), "getrules", "dump"] + (["reload", "use loaded", "dump"] if loaded else [])))
     alive = set()
     n = r.range(6, 16)
     redefined_str = False
@@ -255,7 +257,7 @@ def gen_case(r, hazard=None):
     for s in sorted(alive):
         ops.append(("sc:%d" % s, ["sel %d" % s, "scan 78"]))
     ops.append(("rs", ["rscan 0 0 78"]))
-    if hazard == "save" or (not redefined_str and r.chance(1, 4)):
+    if hazard == "save" or (not redefined_str and not loaded and r.chance(1, 4)):      # (loaded rules cannot be saved: documented)
         if hazard == "save":
             x = [i for i, t in types.items() if t == "s"][0]
             ops.append(("rd:%d:sNULL" % x, ["rdefs %s NULL" % NAMES[x]]))
@@ -344,7 +346,7 @@ def run(chk):
             evals += 1
             kind = tok.split(":")[0]
             opkinds[kind] = opkinds.get(kind, 0) + 1
-            want_lines = [x for x in hl if not x.startswith("sel ") and x != "sdestroy"]
+            want_lines = [x for x in hl if not x.startswith("sel ") and x not in ("sdestroy", "use loaded")]
             got = lines[pos:pos + len(want_lines)]
             crashed = any(l.startswith("crash") for l in lines[pos:pos + len(want_lines)]) or (
                 len(got) < len(want_lines) and any(l.startswith("crash") for l in lines[pos:]))
@@ -389,6 +391,11 @@ def run(chk):
                 # the externals table lists exactly the accepted definitions (invalid ones changed nothing)
                 ext = re.findall(r"E:(\w+):(\d+):", got[2])
                 names = [NAMES[int(a)] for a in accepted]
+                if len(got) > 3:
+                    chk.add("histories_on_reloaded_rules")
+                    if got[3] != "reload rc=0" or re.findall(r"E:[^;]*;", got[4]) != re.findall(r"E:[^;]*;", got[2]):
+                        chk.violation("reload-externals", "%s: externals table after save+load differs: %s / %s" % (
+                            cid, re.findall(r"E:[^;]*;", got[2]), got[3:5]), replay)
                 if [e[0] for e in ext] != names:
                     chk.violation("rejected-define-left-entry", "%s: externals table of the rule set is %s but the accepted definitions are %s "
                                   "(a rejected definition left an entry behind)" % (cid, [e[0] for e in ext], names), replay)
@@ -442,7 +449,8 @@ def run(chk):
              rule="random histories: 2-5 variables of the four types, compile-time defines (with duplicates), 4-8 probe rules over "
                   "== != < <= > >= + - * unary-, contains/icontains/startswith/istartswith/endswith/iendswith/iequals/==/!=, truth "
                   "values, not/and/or; then 6-16 rules-level / scanner-level defines (right type, wrong type, unknown identifier, NULL "
-                  "string), scanner creations (3 slots), scans, yr_rules_scan_mem, destroys, save; plus targeted hazard histories "
+                  "string), scanner creations (3 slots), scans, yr_rules_scan_mem, destroys, save; one history in three runs on the rule set after "
+                  "save + load; plus targeted hazard histories "
                   "(NULL string first at compiler / scanner level, save after string redefinition). distinct = (operation kind, model "
                   "outcome, value type) and distinct verdict vectors")
     for cid, c in cases[:3]:
